@@ -120,7 +120,9 @@ class C05Monitor(Monitor):
                     self.violate(w, "surviving_atom_label_changed", self._ctx(w, name, what),
                                  f"{p}: atom uid {u} had label {mdl[u]}, now {int(labels[i])}")
                     mdl[u] = int(labels[i])
-            default = m.default_label
+            # the label the USER configured for new atoms (the move object may have lost it on the way into the table)
+            spec = w.spec_of_path(p)
+            default = spec.get("default_label") if spec is not None and spec.get("type") in ("disp", "exch") else m.default_label
             others = {int(labels[i]) for i, u in enumerate(uids) if u in mdl}
             seen_new = set()
             for rows in new_particles:
@@ -170,7 +172,7 @@ class C05(HistoryCampaign):
         "calc_styles": ["caching", "stateless"],
         "scales": ["moderate", "ideal"], "constraints": 0.2, "arrays": 0.4, "composites": 0.45, "extended": 0.25,
         "p_force": [0.3, 0.6, 0.9], "p_veto": [0.0, 0.1, 0.3], "preselect": 0.25, "steps_max": 12,
-        "default_label": 0.3, "max_atoms": 8, "wrap_exch": 0.2,
+        "default_label": 0.3, "max_atoms": 8, "wrap_exch": 0.2, "via_copy": 0.3,
     }
     rule = ("one evaluation = one generated grand-canonical deployment (atomic / molecular template, initial "
             "labelings with gaps / shuffles / negatives, several label-bearing moves, composites with + and *, "
